@@ -16,6 +16,7 @@ round's `Provide` writes contains every change up to the index `LastIndex()` ret
 just before (`s.db ≤ c`).
 -/
 import RqModel.Model.Uploader
+import RqModel.Gen.Backup
 namespace C37
 open RqModel.Uploader
 
@@ -41,6 +42,17 @@ instance lawDec : (s : Sys) → (hist : List Ev) → Decidable (Law s hist)
       cases e <;> simp only <;> infer_instance
     have := lawDec (stepEv s e).1 rest
     inferInstanceAs (Decidable (_ ∧ _))
+
+/-- Regenerated fact behind `Law` (store/store.go `Backup`, binary non-vacuum path): when the WAL
+holds data the backup first takes a raft snapshot so that the main file it copies is current,
+and a failure of that snapshot makes the backup FAIL (Provide then retries) unless it is one
+of exactly two kinds: nothing new to snapshot, or raft waiting for a configuration entry.
+Tolerating anything else (e.g. a busy snapshot gate) would copy a main file that lacks the
+WAL's contents under a label that covers them. -/
+theorem pre_backup_snapshot_errors_tolerated :
+    RqModel.Gen.Backup.preBackupSnapshotFailsWhen =
+      "!errors.Is(err, ErrNothingNewToSnapshot) && !strings.Contains(err.Error(), \"wait until the configuration entry at\")" := by
+  decide
 
 /-- invariant of (store index, Uploader.lastIndex, remote object) -/
 structure Good (s : Sys) : Prop where
